@@ -25,7 +25,7 @@ package opt
 //@   modifies nothing
 //@ func (Cluster).GetStores
 //@   assumed
-//@   ensures forall i :: 0 <= i && i < len(result) ==> result[i] != nil
+//@   ensures forall i :: {result[i]} 0 <= i && i < len(result) ==> result[i] != nil && allocated(result[i]) && ufb("clusterStore", self, result[i]) && (result[i].meta != nil ==> 0 <= result[i].meta.State && result[i].meta.State <= 2)
 //@   modifies nothing
 //@ func (Cluster).ScanRegions
 //@   assumed
@@ -40,7 +40,14 @@ package opt
 //@   modifies nothing
 //@ func (Cluster).GetStore
 //@   assumed
+//@   ensures result != nil ==> ufb("storeKnown", self, id) && allocated(result)
+//@   modifies nothing
+//@ func (Cluster).GetRegionStores
+//@   assumed
+//@   ensures forall i :: {result[i]} 0 <= i && i < len(result) ==> result[i] != nil && allocated(result[i])
+//@   ensures [known-peer-stores-are-listed] (exists id uint64 :: ufb("storeKnown", self, id) && hasPeerOn(region, id)) ==> len(result) > 0
 //@   modifies nothing
 //@ func (Cluster).GetOpts
 //@   assumed
+//@   ensures result != nil && result == uf("clusterOpts", self)
 //@   modifies nothing
